@@ -150,3 +150,177 @@ func genCdcProgram(r *hx.Rng) string {
 	w("}")
 	return sb.String()
 }
+
+// genCdcMulti generates a multi-program scenario for `compiledet multi`: (name, source) pairs in
+// dependency order, all at address 0x1.  Leaf contracts (most with an enum, i.e. global variables,
+// and a view function), one or two interface programs that import several leaves — mostly by separate
+// import statements, in random order — and whose interface functions carry pre / post conditions
+// using the imported contracts, and a target program (last) whose concrete types inherit those
+// conditions while importing only the interface programs (so the leaves become transitive imports
+// of the target).  `directed` = exactly the minimal shape: two enum contracts, one interface program,
+// separate imports, a contract as target.
+func genCdcMulti(r *hx.Rng, directed bool) []string {
+	var out []string
+	src := func(name string, lines []string) { out = append(out, name, strings.Join(lines, "\n")) }
+
+	type leaf struct {
+		name, enum string
+		cases      int
+		hasEnum    bool
+	}
+	names := shuffle(r, []string{"A", "B", "K", "M", "Q", "Z"})
+	enums := shuffle(r, []string{"Color", "Direction", "Mode", "Level", "Kind", "Phase"})
+	nLeaf := 2
+	if !directed {
+		nLeaf = 2 + r.Intn(3)
+	}
+	var leaves []leaf
+	for i := 0; i < nLeaf; i++ {
+		l := leaf{name: names[i], enum: enums[i], cases: 2 + r.Intn(3), hasEnum: directed || r.Chance(80)}
+		leaves = append(leaves, l)
+		lines := []string{"contract " + l.name + " {"}
+		if l.hasEnum {
+			lines = append(lines, "    enum "+l.enum+": UInt8 {")
+			for c := 0; c < l.cases; c++ {
+				lines = append(lines, fmt.Sprintf("        case c%d", c))
+			}
+			lines = append(lines, "    }")
+			if r.Chance(50) {
+				lines = append(lines, fmt.Sprintf("    view fun pick(): %s { return %s.c%d }", l.enum, l.enum, r.Intn(l.cases)))
+			}
+		}
+		lines = append(lines, fmt.Sprintf("    view fun check(_ n: Int): Bool { return n >= %d }", r.Intn(9)-4))
+		if r.Chance(40) {
+			lines = append(lines, fmt.Sprintf("    struct Box { let v: Int; init() { self.v = %d } }", r.Intn(100)))
+		}
+		lines = append(lines, "}")
+		src(l.name, lines)
+	}
+
+	// conditions over a set of leaves
+	conds := func(ls []leaf, arg string) []string {
+		var cs []string
+		for _, l := range ls {
+			if r.Chance(80) {
+				cs = append(cs, fmt.Sprintf("%s.check(%s)", l.name, arg))
+			}
+			if l.hasEnum && r.Chance(80) {
+				cs = append(cs, fmt.Sprintf("%s.%s.c%d.rawValue < 200", l.name, l.enum, r.Intn(l.cases)))
+			}
+		}
+		for i := 0; i+1 < len(ls); i++ {
+			a, b := ls[i], ls[i+1]
+			if a.hasEnum && b.hasEnum && r.Chance(70) {
+				cs = append(cs, fmt.Sprintf("%s.%s.c1.rawValue == %s.%s.c1.rawValue", a.name, a.enum, b.name, b.enum))
+			}
+		}
+		if len(cs) == 0 {
+			cs = append(cs, fmt.Sprintf("%s.check(%s)", ls[0].name, arg))
+		}
+		return shuffle(r, cs)
+	}
+
+	nIface := 1
+	if !directed && r.Chance(40) {
+		nIface = 2
+	}
+	type iface struct {
+		name     string
+		hasVault bool
+	}
+	var ifaces []iface
+	for i := 0; i < nIface; i++ {
+		in := iface{name: fmt.Sprintf("I%d", i)}
+		// the leaves this interface program imports (at least two)
+		var used []leaf
+		for _, idx := range shuffle(r, []string{"0", "1", "2", "3"}[:nLeaf]) {
+			l := leaves[int(idx[0]-'0')]
+			if directed || len(used) < 2 || r.Chance(60) {
+				used = append(used, l)
+			}
+		}
+		var lines []string
+		if !directed && r.Chance(20) {
+			var ns []string
+			for _, l := range used {
+				ns = append(ns, l.name)
+			}
+			lines = append(lines, "import "+strings.Join(ns, ", ")+" from 0x1")
+		} else {
+			for _, l := range used {
+				lines = append(lines, "import "+l.name+" from 0x1")
+			}
+		}
+		lines = append(lines, "contract interface "+in.name+" {")
+		lines = append(lines, "    struct interface Checked {")
+		lines = append(lines, "        fun get(_ n: Int): Int {")
+		lines = append(lines, "            pre {")
+		for _, c := range conds(used, "n") {
+			lines = append(lines, "                "+c)
+		}
+		lines = append(lines, "            }")
+		if !directed && r.Chance(50) {
+			lines = append(lines, "            post {")
+			for _, c := range conds(used, "result") {
+				lines = append(lines, "                "+c)
+			}
+			lines = append(lines, "            }")
+		}
+		lines = append(lines, "        }")
+		lines = append(lines, "    }")
+		if !directed && r.Chance(50) {
+			in.hasVault = true
+			lines = append(lines, "    resource interface Vault {")
+			lines = append(lines, "        fun take(_ n: Int): Int {")
+			lines = append(lines, "            post {")
+			for _, c := range conds(used, "n") {
+				lines = append(lines, "                "+c)
+			}
+			lines = append(lines, "            }")
+			lines = append(lines, "        }")
+			lines = append(lines, "    }")
+		}
+		lines = append(lines, "}")
+		src(in.name, lines)
+		ifaces = append(ifaces, in)
+	}
+
+	// the target
+	var lines []string
+	for _, in := range shuffle(r, []string{"I0", "I1"}[:nIface]) {
+		lines = append(lines, "import "+in+" from 0x1")
+	}
+	if !directed && r.Chance(30) {
+		// an own import of one leaf: own imports are registered first
+		lines = append(lines, "import "+leaves[r.Intn(nLeaf)].name+" from 0x1")
+	}
+	var confs []string
+	for _, in := range ifaces {
+		confs = append(confs, in.name+".Checked")
+	}
+	asScript := !directed && r.Chance(25)
+	indent := "    "
+	if asScript {
+		indent = ""
+	} else {
+		lines = append(lines, "contract D {")
+	}
+	lines = append(lines, indent+"struct Impl: "+strings.Join(shuffle(r, confs), ", ")+" {")
+	lines = append(lines, indent+fmt.Sprintf("    fun get(_ n: Int): Int { return n + %d }", 1+r.Intn(9)))
+	lines = append(lines, indent+"}")
+	for _, in := range ifaces {
+		if in.hasVault {
+			lines = append(lines, indent+"resource V"+in.name+": "+in.name+".Vault {")
+			lines = append(lines, indent+"    fun take(_ n: Int): Int { return n }")
+			lines = append(lines, indent+"}")
+		}
+	}
+	if asScript {
+		lines = append(lines, "fun main(): Int { return Impl().get(3) }")
+	} else {
+		lines = append(lines, "    fun run(): Int { return Impl().get(3) }")
+		lines = append(lines, "}")
+	}
+	src("D", lines)
+	return out
+}
